@@ -18,14 +18,15 @@ EXPLANATION = ('Inductive step: after construction the per-anchor frame dictiona
                'equal, coordinate by coordinate, to the result of a freshly built map on the same argument; the stored projections / '
                'equivalences and the key set of the frame dictionary are shown unchanged by the call (frame condition), which closes '
                'the induction for call histories of any length.  Explicit histories: every sequence of up to 3 operations over '
-               '{valid call, call on a second conformation, other-species argument, non-molecule argument, overwrite the coordinates of '
-               'the construction reference, of the construction target} with symbolic values is executed on the real objects; results for '
+               '{valid call, call on a second conformation, call on the construction reference object itself, other-species argument, same-name '
+               'molecule with one atom more/less, non-molecule argument, overwrite the coordinates of the construction reference, of the '
+               'construction target, move the argument object in place} with symbolic values is executed on the real objects; results for '
                'equal arguments are proved equal, rejected arguments raise TypeError and change nothing, argument / construction / '
                'previously returned molecules keep their coordinate terms, names, residue names, atom count/order come from the target '
                'and residue numbers from the argument.')
 BOUNDS = {'quick': {'reference': '3-chain and 4-star, 1 residue; 4-chain in 2 residues', 'target': '2 atoms',
-                    'histories': 'all sequences of <= 2 operations over 6 operation kinds + one final valid call (43)', 'inductive step': '1'},
-          'thorough': {'histories': 'all sequences of <= 3 operations (259)', 'reference': 'as quick plus 4-ring'}}
+                    'histories': 'all sequences of <= 2 operations over 9 operation kinds + one final valid call (91 for the 3-chain, 10 for the others)', 'inductive step': '1'},
+          'thorough': {'histories': 'all sequences of <= 3 operations (820)', 'reference': 'as quick plus 4-ring'}}
 OUTSIDE = ['explicit histories longer than 3 operations (covered by the inductive step only)', 'binary64 rounding',
            'later changes of names / residue labels of the construction molecules (the statement speaks of what the map returns for an argument)']
 STUBS = ['scipy euclidean -> pure version', 'molecules built directly; the frame construction is the real calcule_base']
@@ -33,7 +34,7 @@ ASSUMPTIONS = ['atoms at distinct positions, anchors non-collinear with their fr
                'reference and target have the same number of residues', 'exact real arithmetic']
 CASE_TIMEOUT = {'quick': 900, 'thorough': 3000}
 
-OPS = ['call_A', 'call_B', 'bad_species', 'bad_type', 'mutate_ref', 'mutate_tgt']
+OPS = ['call_A', 'call_B', 'call_ref', 'bad_species', 'bad_prefix', 'bad_type', 'mutate_ref', 'mutate_tgt', 'mutate_A']
 
 
 def cases(tier):
@@ -197,39 +198,50 @@ def run_case(case):
         def run(ctx, hist=hist):
             nonlocal top_ref
             top_ref = make_top('REF', ratoms, edges)
-            preconditions(ctx, [V['x'], V['a'], V['b']])
+            preconditions(ctx, [V['x'], V['a'], V['b'], V['m']])
             ref = mkref(V['x'])
             tgt = make_molecule('TGT', tatoms, [(0, 1)], sym(tv))
             m = ExchangeMap(ref, tgt, SymReal(s))
             argA, argB = mkref(V['a'], 3), mkref(V['b'], 7)
             other = make_molecule('OTH', _atoms(n, res, 'X', 'R'), edges, sym(V['a']))
-            termsA, termsB = coords_terms(argA), coords_terms(argB)
+            # same species name and identical leading atoms, but one atom more / one atom less
+            longer = make_molecule('REF', ratoms + [('C%d' % n, ratoms[-1][1], ratoms[-1][2])], edges + [(n - 1, n)], sym(V['a']) + [[SymReal(z3.Real('extra%d' % k)) for k in range(3)]])
+            shorter = make_molecule('REF', ratoms[:-1], [e for e in edges if n - 1 not in e], sym(V['a'])[:-1]) if n > 3 else None
+            cur = {'A': V['a'], 'B': V['b'], 'ref': V['x']}      # current coordinate rows of the objects that may be changed in place
             log = {'returned': [], 'type_errors': 0, 'expected_type_errors': 0, 'state_ok': True, 'pure_ok': True}
             for op in hist + ['call_A']:
                 before = (dict(m._equivalences), {k: [expr(c) for c in v] for k, v in m._target_coordinates.items()})
-                if op in ('call_A', 'call_B'):
-                    arg, terms = (argA, termsA) if op == 'call_A' else (argB, termsB)
-                    prev = [(r_, coords_terms(r_)) for _, r_, _ in log['returned']]
+                if op in ('call_A', 'call_B', 'call_ref'):
+                    arg = {'call_A': argA, 'call_B': argB, 'call_ref': ref}[op]
+                    key = {'call_A': 'A', 'call_B': 'B', 'call_ref': 'ref'}[op]
+                    terms = coords_terms(arg)
+                    prev = [(r_, coords_terms(r_)) for _, r_, _, _ in log['returned']]
                     out = m(arg)
-                    log['returned'].append((op, out, coords_terms(out)))
+                    log['returned'].append((op, out, coords_terms(out), (cur[key], arg.resids[0] - 1)))
                     log['pure_ok'] &= same_terms(coords_terms(arg), terms)
                     log['pure_ok'] &= all(same_terms(coords_terms(r_), t_) for r_, t_ in prev)
                     log['pure_ok'] &= out.resids == arg.resids and [a.name for a in out] == [t[0] for t in tatoms]
                     log['pure_ok'] &= [a.resname for a in out] == [t[1] for t in tatoms] and len(out) == nt
-                elif op in ('bad_species', 'bad_type'):
-                    log['expected_type_errors'] += 1
-                    try:
-                        m(other if op == 'bad_species' else [1, 2, 3])
-                    except TypeError:
-                        log['type_errors'] += 1
+                elif op in ('bad_species', 'bad_type', 'bad_prefix'):
+                    bads = [other] if op == 'bad_species' else [[1, 2, 3]] if op == 'bad_type' else [x for x in (longer, shorter) if x is not None]
+                    for b_ in bads:
+                        log['expected_type_errors'] += 1
+                        try:
+                            m(b_)
+                        except TypeError:
+                            log['type_errors'] += 1
                     after = (dict(m._equivalences), {k: [expr(c) for c in v] for k, v in m._target_coordinates.items()})
                     log['state_ok'] &= before[0] == after[0] and all(all(z3.eq(p, q) for p, q in zip(before[1][k], after[1][k])) for k in before[1])
                 elif op == 'mutate_ref':
                     ref.atoms_positions = np.array(sym(V['m']), dtype=object)
+                    cur['ref'] = V['m']
                 elif op == 'mutate_tgt':
                     tgt.atoms_positions = np.array(sym(tm), dtype=object)
+                elif op == 'mutate_A':
+                    argA.atoms_positions = np.array(sym(V['b']), dtype=object)      # the caller moves the same object in place
+                    cur['A'] = V['b']
             fresh = ExchangeMap(mkref(V['x']), make_molecule('TGT', tatoms, [(0, 1)], sym(tv)), SymReal(s))
-            out_f = {'call_A': coords_terms(fresh(mkref(V['a'], 3))), 'call_B': coords_terms(fresh(mkref(V['b'], 7)))}
+            out_f = [coords_terms(fresh(mkref(rows, off))) for _, _, _, (rows, off) in log['returned']]
             return log, out_f
         np_here = 0
         for ctx, res_, exc in explore(run, max_paths=200):
@@ -244,8 +256,8 @@ def run_case(case):
             log, out_f = res_
             if not records:
                 records.append(core_twin(ctx, cap))
-            for op, out, terms in log['returned']:
-                prove_equal(ctx, '%s path%d: %s result = freshly built map on the same argument' % (tagh, np_here, op), terms, out_f[op], hist)
+            for q_, (op, out, terms, _) in enumerate(log['returned']):
+                prove_equal(ctx, '%s path%d: %s result = freshly built map on the argument\'s current coordinates' % (tagh, np_here, op), terms, out_f[q_], hist)
             flag('%s path%d: rejected arguments raise TypeError (%d/%d) and leave the map state untouched' % (
                 tagh, np_here, log['type_errors'], log['expected_type_errors']), log['type_errors'] == log['expected_type_errors'] and log['state_ok'], hist)
             flag('%s path%d: argument, previously returned molecules unchanged; names/resnames/order from the target, residue numbers from the argument' % (tagh, np_here),
@@ -278,39 +290,46 @@ def replay(w):
     with np.errstate(all='ignore'):
         m = ExchangeMap(ref, tgt, s)
         # pollute with calls on other conformations first (stale frame state), as the inductive step does symbolically
-        m(mkref(C['b'], 7)); m(mkref(C['m'], 9))
+        if w.get('history') is None:
+            m(mkref(C['b'], 7)); m(mkref(C['m'], 9))
         argA, argB = mkref(C['a'], 3), mkref(C['b'], 7)
         other = make_molecule('OTH', _atoms(n, res, 'X', 'R'), edges, C['a'])
+        longer = make_molecule('REF', ratoms + [('C%d' % n, ratoms[-1][1], ratoms[-1][2])], edges + [(n - 1, n)], np.vstack([C['a'], [[9.0, 9.0, 9.0]]]))
+        shorter = make_molecule('REF', ratoms[:-1], [e for e in edges if n - 1 not in e], C['a'][:-1]) if n > 3 else None
         returned = []
         for op in hist:
-            if op in ('call_A', 'call_B'):
-                arg = argA if op == 'call_A' else argB
+            if op in ('call_A', 'call_B', 'call_ref'):
+                arg = {'call_A': argA, 'call_B': argB, 'call_ref': ref}[op]
                 before = arg.atoms_positions.copy()
-                prev = [(r_, r_.atoms_positions.copy()) for _, r_ in returned]
+                prev = [(r_, r_.atoms_positions.copy()) for _, r_, _ in returned]
                 out = m(arg)
-                returned.append((op, out))
+                returned.append((op, out, (before.copy(), arg.resids[0] - 1)))
                 if np.abs(arg.atoms_positions - before).max() > 0:
                     bad.append('argument coordinates modified')
                 if any(np.abs(r_.atoms_positions - p_).max() > 0 for r_, p_ in prev):
                     bad.append('previously returned molecule modified')
                 if out.resids != arg.resids or [a.name for a in out] != [t[0] for t in tatoms]:
                     bad.append('wrong residue numbers / names in the result')
-            elif op in ('bad_species', 'bad_type'):
-                try:
-                    m(other if op == 'bad_species' else [1, 2, 3])
-                    bad.append('%s accepted' % op)
-                except TypeError:
-                    pass
-                except Exception as e:
-                    bad.append('%s raised %s instead of TypeError' % (op, type(e).__name__))
+            elif op in ('bad_species', 'bad_type', 'bad_prefix'):
+                bads = [other] if op == 'bad_species' else [[1, 2, 3]] if op == 'bad_type' else [x for x in (longer, shorter) if x is not None]
+                for b_ in bads:
+                    try:
+                        m(b_)
+                        bad.append('%s accepted (no TypeError)' % op)
+                    except TypeError:
+                        pass
+                    except Exception as e:
+                        bad.append('%s raised %s instead of TypeError' % (op, type(e).__name__))
             elif op == 'mutate_ref':
                 ref.atoms_positions = C['m']
             elif op == 'mutate_tgt':
                 tgt.atoms_positions = U
+            elif op == 'mutate_A':
+                argA.atoms_positions = C['b']
         fresh = ExchangeMap(mkref(C['x']), mktgt(), s)
-        for op, out in returned:
-            want = fresh(mkref(C['a'], 3) if op == 'call_A' else mkref(C['b'], 7)).atoms_positions
+        for op, out, (rows, off) in returned:
+            want = fresh(mkref(rows, off)).atoms_positions
             if not np.all(np.isfinite(out.atoms_positions)) or np.abs(out.atoms_positions - want).max() > 1e-9:
-                bad.append('%s result differs from a freshly built map' % op)
+                bad.append('%s result differs from a freshly built map applied to the same coordinates' % op)
     bad = sorted(set(bad))
     return {'reproduced': bool(bad), 'what': 'ExchangeMap call history %s: %s' % (hist, '; '.join(bad)), 'detail': {'history': hist}}
